@@ -4,37 +4,18 @@ import (
 	"fmt"
 	"os"
 
-	"github.com/zenon-network/go-zenon/chain/nom"
-
 	"verifmc/internal/ops"
 	"verifmc/internal/vnode"
+	_ "verifmc/props/c02"
 )
 
 func main() {
 	dir, _ := os.MkdirTemp("/dev/shm", "scratch")
 	defer os.RemoveAll(dir)
 	n := vnode.New(vnode.Options{Dir: dir})
-	for i, u := range ops.Users[:13] {
-		st := n.Chain.GetFrontierAccountStore(u.Address)
-		m, _ := st.GetBalanceMap()
-		fmt.Println(i, m)
-	}
-	for _, o := range []ops.Op{
-		{K: "Call", S: "sentinel-register", A: 0},
-		{K: "Call", S: "sentinel-register", A: 5},
-		{K: "Call", S: "pillar-deposit-qsr", A: 1, V: 10},
-		{K: "Call", S: "burn", A: 2, T: 1, V: 5},
-		{K: "M"},
-		{K: "Call", S: "pillar-withdraw-qsr", A: 1},
-		{K: "M"},
-	} {
+	M := ops.Op{K: "M"}
+	for _, o := range []ops.Op{M, {K: "CancelGenesisFuse", A: 1}, M, M, {K: "Told", A: 1, B: 2, V: 4}, M,
+		{K: "Call", S: "delegate", A: 0, B: 2}, M, {K: "Told", A: 0, B: 1, V: 2}, M, M, {K: "Tx", A: 1, B: 2, V: 1}} {
 		fmt.Println(o, "->", ops.Apply(n, o))
 	}
-	fmt.Println(ops.Apply(n, ops.Op{K: "M"}))
-	for h := uint64(2); h <= n.Height(); h++ {
-		for _, b := range n.Detailed(h).AccountBlocks {
-			fmt.Printf("m%d: type=%d addr=%v h=%d desc=%d amt=%v\n", h, b.BlockType, b.Address, b.Height, len(b.DescendantBlocks), b.Amount)
-		}
-	}
-	_ = nom.BlockTypeUserSend
 }
